@@ -35,14 +35,15 @@ def tweak(world, rng):
 
 
 CFG = {"cmds": ["restore", "restore", "empty", "rm"], "oracles": ("crash15", "effects"), "violations": ("crash15",), "profile": "clean",
-       "states": True, "tweak": tweak}
+       "states": True, "tweak": tweak, "interrupt_sweep": 40}
 LEVEL_NOTE = ("theorems: while one entry is purged the info file is untouched as long as the payload root exists (every "
               "oracle); re-running the purge completes it; a same-volume restore keeps the entry complete in the trash or "
               "at its destination in every intermediate state. Cross-volume restores (copy + delete) are covered by the "
               "recorded states and the oracle only")
 RULE = ("seeded trash worlds (files, deep directories, symlinks; single and multiple entries; same- and cross-volume "
         "destinations); every state before each mutating call is compared with the model's state sequence and checked "
-        "against Effects.crashCheck; thorough: real kills + re-run of trash-empty / trash-rm to completion")
+        "against Effects.crashCheck; for a third of the worlds a keyboard interrupt behind each mutating call in turn, the state "
+        "left by the program's own handlers judged by the same predicate; thorough: real kills + re-run of trash-empty / trash-rm to completion")
 
 
 def rerun_task(task):
